@@ -182,7 +182,7 @@ func Ite(c, a, b *Term) *Term {
 	if c.Op == "false" {
 		return b
 	}
-	if a == b {
+	if a == b || (len(a.Args) == 0 && len(b.Args) == 0 && a.Op == b.Op && a.Sort == b.Sort) {
 		return a
 	}
 	if a.Sort == SBool {
@@ -191,6 +191,19 @@ func Ite(c, a, b *Term) *Term {
 		}
 		if a.Op == "false" && b.Op == "true" {
 			return Not(c)
+		}
+		// short-circuit booleans lowered to control flow come back as ite over constants
+		if a.Op == "true" {
+			return Or(c, b)
+		}
+		if a.Op == "false" {
+			return And(Not(c), b)
+		}
+		if b.Op == "true" {
+			return Or(Not(c), a)
+		}
+		if b.Op == "false" {
+			return And(c, a)
 		}
 	}
 	return &Term{Op: "ite", Sort: a.Sort, Args: []*Term{c, a, b}}
@@ -354,10 +367,112 @@ func (t *Term) Size() int {
 	return n
 }
 
+// String prints the term. Terms are DAGs in memory; shared sub-terms are
+// bound with let so that the text stays linear in the DAG size.
 func (t *Term) String() string {
 	var sb strings.Builder
-	t.write(&sb)
+	n := 0
+	printScope(&sb, t, &n)
 	return sb.String()
+}
+
+func printScope(sb *strings.Builder, root *Term, ctr *int) {
+	refs := map[*Term]int{}
+	var count func(n *Term)
+	count = func(n *Term) {
+		refs[n]++
+		if refs[n] > 1 || len(n.Bound) > 0 {
+			return
+		}
+		for _, a := range n.Args {
+			count(a)
+		}
+	}
+	count(root)
+	shared := false
+	for _, c := range refs {
+		if c > 1 {
+			shared = true
+			break
+		}
+	}
+	names := map[*Term]string{}
+	var order []*Term
+	if shared {
+		visited := map[*Term]bool{}
+		var visit func(n *Term)
+		visit = func(n *Term) {
+			if visited[n] {
+				return
+			}
+			visited[n] = true
+			if len(n.Bound) == 0 {
+				for _, a := range n.Args {
+					visit(a)
+				}
+			}
+			if n != root && refs[n] > 1 && len(n.Args) > 0 && n.Size() >= 6 {
+				*ctr++
+				names[n] = fmt.Sprintf("$l%d", *ctr)
+				order = append(order, n)
+			}
+		}
+		visit(root)
+	}
+	var emit func(n *Term, self bool)
+	emit = func(n *Term, self bool) {
+		if !self {
+			if nm, ok := names[n]; ok {
+				sb.WriteString(nm)
+				return
+			}
+		}
+		if len(n.Bound) > 0 {
+			sb.WriteString("(")
+			sb.WriteString(n.Op)
+			sb.WriteString(" (")
+			for _, b := range n.Bound {
+				sb.WriteString("(" + b.Name + " " + b.Sort + ")")
+			}
+			sb.WriteString(") ")
+			if len(n.Pat) > 0 {
+				sb.WriteString("(! ")
+				printScope(sb, n.Args[0], ctr)
+				sb.WriteString(" :pattern (")
+				for i, p := range n.Pat {
+					if i > 0 {
+						sb.WriteString(" ")
+					}
+					p.write(sb)
+				}
+				sb.WriteString("))")
+			} else {
+				printScope(sb, n.Args[0], ctr)
+			}
+			sb.WriteString(")")
+			return
+		}
+		if len(n.Args) == 0 {
+			sb.WriteString(n.Op)
+			return
+		}
+		sb.WriteString("(")
+		sb.WriteString(n.Op)
+		for _, a := range n.Args {
+			sb.WriteString(" ")
+			emit(a, false)
+		}
+		sb.WriteString(")")
+	}
+	for _, n := range order {
+		sb.WriteString("(let ((" + names[n] + " ")
+		emit(n, true)
+		sb.WriteString(")) ")
+	}
+	emit(root, false)
+	for range order {
+		sb.WriteString(")")
+	}
 }
 
 func (t *Term) write(sb *strings.Builder) {
